@@ -817,13 +817,32 @@ fn table_three_ways<B: StarkField>(spec: &Spec<B>, cols: &[Vec<B>], threads: usi
     }
     let mut by_frag = TraceTable::<B>::new(w, n);
     let frag_len = 1usize << (1 + tape::w("c29.fragment.log", (n.ilog2()) as u64) as u32).min(n.ilog2());
+    // what a fragment reports about itself must be possible: `fragment_length` rows starting at a
+    // step that lies inside the trace on a fragment boundary (which index gets which offset is not
+    // documented and not demanded); a fragment that says otherwise is not filled
+    let bad_fragment: std::sync::Mutex<Option<String>> = std::sync::Mutex::new(None);
+    let sane = |index: usize, offset: usize, length: usize| -> bool {
+        if length == frag_len && offset % frag_len == 0 && offset + length <= n {
+            return true;
+        }
+        let mut b = bad_fragment.lock().unwrap();
+        if b.is_none() {
+            *b = Some(format!("fragment {index} reports offset {offset} and length {length}, which is not a block of {frag_len} rows on a fragment boundary of a {n}-row trace"));
+        }
+        false
+    };
     if let Err(p) = guard(|| {
         by_frag.fragments(frag_len).for_each(|mut frag| {
             let offset = frag.offset();
-            frag.fill(|state| row(offset, state), |step, state| row(offset + step + 1, state));
+            if sane(frag.index(), offset, frag.length()) {
+                frag.fill(|state| row(offset, state), |step, state| row(offset + step + 1, state));
+            }
         })
     }) {
         fail!("panic", p.site(), "TraceTable::fragments({frag_len}): {}", p.msg);
+    }
+    if let Some(why) = bad_fragment.lock().unwrap().take() {
+        fail!("trace-tables-differ", "fragment-layout", "{why} (threads {threads}, trace {n}x{w})");
     }
     for j in 0..w {
         for t in 0..n {
@@ -844,6 +863,9 @@ fn table_three_ways<B: StarkField>(spec: &Spec<B>, cols: &[Vec<B>], threads: usi
     if let Err(p) = guard(|| {
         refill.fragments(frag_len).for_each(|mut frag| {
             let offset = frag.offset();
+            if !sane(frag.index(), offset, frag.length()) {
+                return;
+            }
             if (retry_mask >> (frag.index() % 8)) & 1 == 1 {
                 frag.fill(|state| state.iter_mut().for_each(|s| *s = B::from(7u32)), |_, state| state.iter_mut().for_each(|s| *s += B::ONE));
             }
